@@ -45,8 +45,10 @@ __CPROVER_requires (__CPROVER_is_fresh (values, 4 * (width + 1)))
 __CPROVER_requires (0 <= gk && gk < width && gb < VD_ROWWORDS * 32u)
 __CPROVER_assigns (__CPROVER_object_whole (image->bits))
 __CPROVER_ensures ((SF_RAW (VF, (const uint8_t *) image->bits, x + gk) & SF_DEFMASK (VF)) == SF_NARROW_PIX (VF, values[gk]))
+/* (cbmc cannot take __CPROVER_old of an expression with &: take the old BYTE and select the bit outside) */
 __CPROVER_ensures ((gb >= (unsigned) x * VD_BPP && gb < (unsigned) (x + width) * VD_BPP) ||
-                   SF_BIT ((const uint8_t *) image->bits, gb) == __CPROVER_old (SF_BIT ((const uint8_t *) image->bits, gb)))
+                   ((((const uint8_t *) image->bits)[gb >> 3] >> (gb & 7)) & 1) ==
+                   ((__CPROVER_old (((const uint8_t *) image->bits)[gb >> 3]) >> (gb & 7)) & 1))
 ;
 #endif
 
